@@ -2,7 +2,25 @@
  *
  *   drv_fips <nthreads> <mode pass|aesfail|shafail> <rounds> [seed]
  *
- * Link against the FIPS build with
+ * Two configurations:
+ *  (x86 gate, default)  the FIPS_MODE=y library of this host: fips/self_tests.c + asm_self_tests.asm;
+ *  (portable gate, compile with -DVERIF_GENERIC_GATE)  the FIPS_MODE=y arch=noarch library:
+ *      fips/self_tests_generic.c.  That library holds the portable C code only: no AES at all.  Its
+ *      aes_self_tests.o is there but imports 33 AES functions nobody defines, so the real `_aes_self_tests`
+ *      cannot be linked; `--wrap=_aes_self_tests` redirects the gate's call to a counting stand-in defined
+ *      here (it sleeps 2 ms like the x86 wrapper and returns 1 in mode aesfail, else 0) and, because nothing
+ *      references `__real__aes_self_tests`, the archive member is never pulled in.  The SHA self tests, the SHA
+ *      managers and the whole gate are the library's own code.  Entry points used: isal_self_tests and
+ *      isal_sha{1,256,512}_ctx_mgr_init (no isal_aes_keyexp_128).  Link line:
+ *        cc -O2 -pthread -DVERIF_GENERIC_GATE -I<src>/include drv_fips.c <noarch>/isa-l_crypto.a
+ *           -Wl,--wrap=_aes_self_tests -Wl,--wrap=_sha_self_tests
+ *           -Wl,--wrap=_sha256_ctx_mgr_submit -Wl,--wrap=_sha256_ctx_mgr_flush
+ *      The portable gate does not call `_sha_self_tests` when `_aes_self_tests` failed, so there "the self
+ *      tests have finished" is the return of the AES stand-in when it fails, else the return from SHA.
+ * Environment: VERIF_FIPS_DEADLINE=<seconds> (default 20) time a round's threads get before
+ * C17-thread-did-not-finish fires.
+ *
+ * x86 gate: link against the FIPS build with
  *   -Wl,--wrap=_aes_self_tests -Wl,--wrap=_sha_self_tests
  *   -Wl,--wrap=_aes_cbc_enc_128 -Wl,--wrap=_sha256_ctx_mgr_submit -Wl,--wrap=_sha256_ctx_mgr_flush
  * The library itself is not modified.  The first two wrappers count entries into / returns from the
@@ -43,7 +61,9 @@
 #include <unistd.h>
 
 #include "isal_crypto_api.h"
+#ifndef VERIF_GENERIC_GATE
 #include "aes_keyexp.h"
+#endif
 #include "sha1_mb.h"
 #include "sha256_mb.h"
 #include "sha512_mb.h"
@@ -66,9 +86,11 @@ now_ns(void)
 }
 
 /* ---- wrappers (ld --wrap) ---- */
+#ifndef VERIF_GENERIC_GATE
 int __real__aes_self_tests(void);
-int __real__sha_self_tests(void);
 int __real__aes_cbc_enc_128(void *in, uint8_t *iv, uint8_t *keys, void *out, uint64_t len);
+#endif
+int __real__sha_self_tests(void);
 ISAL_SHA256_HASH_CTX *__real__sha256_ctx_mgr_submit(ISAL_SHA256_HASH_CTX_MGR *mgr, ISAL_SHA256_HASH_CTX *ctx,
                                                     const void *buffer, uint32_t len, ISAL_HASH_CTX_FLAG flags);
 ISAL_SHA256_HASH_CTX *__real__sha256_ctx_mgr_flush(ISAL_SHA256_HASH_CTX_MGR *mgr);
@@ -81,10 +103,23 @@ __wrap__aes_self_tests(void)
         while (k > m && !atomic_compare_exchange_weak(&max_inside, &m, k))
                 ;
         usleep(2000);
+#ifdef VERIF_GENERIC_GATE
+        /* stand-in for the AES self tests (no AES in the noarch library); a failing run ends here */
+        (void) tl_in_aes;
+        int r = (g_mode == MODE_AESFAIL && atomic_load(&g_fault_on)) ? 1 : 0;
+        if (r != 0) {
+                atomic_fetch_sub(&inside, 1);
+                int64_t z = 0;
+                atomic_compare_exchange_strong(&t_first_done, &z, now_ns());
+                atomic_fetch_add(&completed_runs, 1);
+        }
+        return r;
+#else
         tl_in_aes = 1;
         int r = __real__aes_self_tests();
         tl_in_aes = 0;
         return r;
+#endif
 }
 
 int
@@ -101,6 +136,7 @@ __wrap__sha_self_tests(void)
         return r;
 }
 
+#ifndef VERIF_GENERIC_GATE
 int
 __wrap__aes_cbc_enc_128(void *in, uint8_t *iv, uint8_t *keys, void *out, uint64_t len)
 {
@@ -109,6 +145,7 @@ __wrap__aes_cbc_enc_128(void *in, uint8_t *iv, uint8_t *keys, void *out, uint64_
                 ((uint8_t *) out)[0] ^= 1;
         return r;
 }
+#endif
 
 static ISAL_SHA256_HASH_CTX *
 maybe_corrupt(ISAL_SHA256_HASH_CTX *c)
@@ -132,18 +169,27 @@ __wrap__sha256_ctx_mgr_flush(ISAL_SHA256_HASH_CTX_MGR *mgr)
 }
 
 /* ---- approved entry points used for the calls ---- */
+#ifdef VERIF_GENERIC_GATE
+#define N_ENTRY 4
+static const char *entry_name[N_ENTRY] = { "isal_self_tests", "isal_sha256_ctx_mgr_init", "isal_sha1_ctx_mgr_init",
+                                           "isal_sha512_ctx_mgr_init" };
+#define ENTRY_CASE(k) ((k) == 0 ? 0 : (k) + 1) /* skip the AES entry point */
+#else
 #define N_ENTRY 5
 static const char *entry_name[N_ENTRY] = { "isal_self_tests", "isal_aes_keyexp_128", "isal_sha256_ctx_mgr_init",
                                            "isal_sha1_ctx_mgr_init", "isal_sha512_ctx_mgr_init" };
+#define ENTRY_CASE(k) (k)
+#endif
 
 /* returns the call's return code; *touched = output was written */
 static int
 call_entry(int which, int *touched)
 {
         *touched = -1; /* unknown */
-        switch (which % N_ENTRY) {
+        switch (ENTRY_CASE(which % N_ENTRY)) {
         case 0:
                 return isal_self_tests();
+#ifndef VERIF_GENERIC_GATE
         case 1: {
                 static const uint8_t key[16] = { 1, 2, 3, 4, 5, 6, 7, 8, 9, 10, 11, 12, 13, 14, 15, 16 };
                 uint8_t enc[16 * 11] __attribute__((aligned(16))), dec[16 * 11] __attribute__((aligned(16)));
@@ -155,6 +201,7 @@ call_entry(int which, int *touched)
                 *touched = t;
                 return r;
         }
+#endif
         case 2: {
                 ISAL_SHA256_HASH_CTX_MGR *m = NULL;
                 if (posix_memalign((void **) &m, 64, sizeof *m))
@@ -255,7 +302,7 @@ run_round(int round, int n, uint64_t seed)
         pthread_barrier_wait(&barrier);
         struct timespec dl;
         clock_gettime(CLOCK_REALTIME, &dl);
-        dl.tv_sec += 20;
+        dl.tv_sec += getenv("VERIF_FIPS_DEADLINE") ? atoi(getenv("VERIF_FIPS_DEADLINE")) : 20;
         for (int i = 0; i < n; i++) {
                 if (pthread_timedjoin_np(tid[i], NULL, &dl)) {
                         printf("round=%d entered_aes=%d entered_sha=%d rets=? first_return_after_tests=?\n", round,
